@@ -38,3 +38,7 @@ Proof.
   unfold verdict_b, C10_ok_b. destruct (decode reg f b) as [[v r]|] eqn:E; [|discriminate].
   destruct r; [|discriminate]. intros _. apply canonical in E as [Eb Ht]. exists v. now rewrite app_nil_r in Eb.
 Qed.
+
+(* (c): the model accepts its own encoding of a well-typed value, whatever follows it *)
+Lemma model_ok_c reg f v rest : has_type reg f v -> verdict_c reg f (encode reg f v ++ rest) true = 0%N.
+Proof. intros H. unfold verdict_c. now rewrite (roundtrip reg f v rest H). Qed.
